@@ -388,4 +388,37 @@ example : decode ⟨id, id, fun _ => [1, 2, 3, 4]⟩ bitcoin
     .ok (.p2sh, Spec.Address.scriptPubKey .p2sh (List.replicate 20 7)) :=
   addr_roundtrip_p2sh _ (fun _ => rfl) bitcoin (by decide) _ (by decide)
 
+/-! ### the string tests of `Make`, `MakeFromHash` and `Decode`
+
+The model dispatches on an inductive `Format` and compares HRPs as byte lists; the source compares strings.
+The regenerated guards of those tests are pinned here: each `case` of the two switches is the test for
+exactly one format name (the names are the regenerated constants), `MakeFromHash` asks for 32 bytes for
+`P2WSH` only, and the HRP test is plain inequality with the current network's HRP. -/
+
+open BtcVerif.Gen BtcVerif.Gen.Guards in
+/-- the `AddressFormat` string of a model format (`other`: any string that is none of the four) -/
+def formatName : Format → String
+  | .p2pkh => constants_FormatP2PKH
+  | .p2sh => constants_FormatP2SH
+  | .p2wpkh => constants_FormatP2WPKH
+  | .p2wsh => constants_FormatP2WSH
+  | .other => ""
+
+open BtcVerif.Gen BtcVerif.Gen.Guards in
+theorem format_switches_pinned (f : Format) :
+    address_Make_0 (addressFormat := formatName f) = decide (f = .p2pkh) ∧
+    address_Make_1 (addressFormat := formatName f) = decide (f = .p2sh) ∧
+    address_Make_2 (addressFormat := formatName f) = decide (f = .p2wpkh) ∧
+    address_Make_3 (addressFormat := formatName f) = decide (f = .p2wsh) ∧
+    address_MakeFromHash_1 (addressFormat := formatName f) = decide (f = .p2wsh) ∧
+    address_MakeFromHash_3 (addressFormat := formatName f) = decide (f = .p2pkh) ∧
+    address_MakeFromHash_4 (addressFormat := formatName f) = decide (f = .p2sh) ∧
+    address_MakeFromHash_5 (addressFormat := formatName f) = decide (f = .p2wpkh) ∧
+    address_MakeFromHash_6 (addressFormat := formatName f) = decide (f = .p2wsh) := by
+  cases f <;> decide
+
+open BtcVerif.Gen.Guards in
+theorem hrp_test_pinned (hrp net : String) :
+    address_Decode_2 (hrp := hrp) (constants_CurrentNetwork_Bech32 := net) = decide (hrp ≠ net) := rfl
+
 end BtcVerif.Props.C09
